@@ -392,13 +392,23 @@ def rules(rep, m):
         r5.ok()
     tx = FuncCtx(m, tm)
     tmp_ = tm.params[0]["name"]
-    tl = [x for x in walk(tm.body) if x["kind"] == "ForStmt"]
+    tl = [x for x in walk(tm.body) if x["kind"] in ("ForStmt", "WhileStmt")]
     okt = False
     if len(tl) == 1:
-        b = tx.canon(kids(tl[0])[2])
-        fc = [tx.canon(kids(y)[1]) for y in walk(tl[0]) if y["kind"] == "CallExpr" and callee_ref(y) == "cmi_aligned_free"]
-        okt = re.fullmatch(r"\((\w+) < %s->chunk_list_cnt\)" % tmp_, b) is not None and len(fc) == 1 and \
-            re.fullmatch(r"%s->chunk_list\[\w+\]" % tmp_, fc[0]) is not None
+        ivs, gd = inv.induction_vars(tx, tm, tl[0])
+        trip = inv.trip_count(ivs, gd)
+        fc = [kids(y)[1] for y in walk(tl[0]) if y["kind"] == "CallExpr" and callee_ref(y) == "cmi_aligned_free"]
+        okt = trip == tmp_ + "->chunk_list_cnt" and len(fc) == 1
+        if okt:
+            a0 = strip(fc[0], casts=True)
+            if a0["kind"] == "ArraySubscriptExpr":
+                ix = strip(kids(a0)[1], casts=True)
+                okt = tx.canon(kids(a0)[0]) == tmp_ + "->chunk_list" and ix["kind"] == "DeclRefExpr" and ivs.get(ix["ref"]["name"]) == ("0", 1)
+            elif a0["kind"] == "UnaryOperator" and a0.get("opcode") == "*":
+                q = strip(kids(a0)[0], casts=True)
+                okt = q["kind"] == "DeclRefExpr" and ivs.get(q["ref"]["name"]) == (tmp_ + "->chunk_list", 1)
+            else:
+                okt = False
         okt = okt and any(callee_ref(y) == "cmi_free" and tx.canon(kids(y)[1]) == tmp_ + "->chunk_list"
                           for y in walk(tm.body) if y["kind"] == "CallExpr")
     r5.instance("terminate frees every chunk and the list: %s" % okt)
